@@ -90,6 +90,10 @@ def gen_case(rng, tier, i):
                 seen.add(axn)
                 keep.append(d)
         extra_coords.append({"name": f"aux{k}", "dims": keep})
+    if rng.random() < 0.1:
+        # a dataset without any dimension coordinate whose only coordinates are scalars (a time stamp, a run id)
+        have_dimcoord = {d: False for d, _ in alld}
+        extra_coords = [{"name": f"aux{k}", "dims": []} for k in range(rng.randint(1, 2))]
     ax = rng.choice(layout.axes)
     frm = rng.choice(list(ax["coords"]))
     tos = [q for q in ax["coords"] if q != "center"] if frm == "center" else ["center"]
@@ -113,7 +117,7 @@ def gen_case(rng, tier, i):
             "extra_coords": extra_coords, "axis": ax["name"], "from": frm, "to": rng.choice(tos), "dims": dims,
             "op": "cumsum" if (second and rng.random() < 0.4) else rng.choice(["diff", "interp", "min", "max", "cumsum"]),
             "keep": rng.random() < 0.5,
-            "input": rng.choice(["ds_coords", "none", "altered"]), "boundary": rng.choice(["fill", "extend", "periodic"]),
+            "input": rng.choice(["ds_coords", "none", "altered", "degenerate"]), "boundary": rng.choice(["fill", "extend", "periodic"]),
             "seed": rng.randrange(1 << 30)}
 
 
@@ -153,6 +157,16 @@ def eval_case(case, drv):
     elif case["input"] == "altered":
         da = da.assign_coords({d: np.arange(sizes[d]) * -3.0 for d in dims})
         da = da.assign_coords(stale=(dims[0], np.arange(sizes[dims[0]]) * 1.0))
+    elif case["input"] == "degenerate":
+        # labels that are no use as an index: all equal (placeholder coordinates), or a longitude stored modulo 360
+        # (first label repeated at the end), or NaN - the VALUES of the result never depend on the input's labels
+        kind = case["seed"] % 3
+        lab = {}
+        for d in dims:
+            n_ = sizes[d]
+            lab[d] = (np.zeros(n_) if kind == 0 else np.array([(90.0 * i) % 360.0 for i in range(n_ - 1)] + [0.0][: n_ - (n_ - 1)])
+                      if kind == 1 else np.full(n_, np.nan))
+        da = da.assign_coords(lab)
     ax = layout.axis(case["axis"])
     old, new = ax["coords"][case["from"]], ax["coords"][case["to"]]
     moves = [(old, new)]
